@@ -35,14 +35,44 @@ theorem defaults_documented :
       ("angles_order", "'zxz'"), ("symmetry", "'c1'"), ("angles_numbering", "0"), ("tomo_mask", "None")] ∧
     loadDefaults = [("angles_order", "'zxz'")] := by decide
 
-/-- the whole bodies of the six functions the statement runs through, as digests of their normalised dumps
-(statement kinds + expressions, local variables numbered in order of first binding; the dumps are printed below
-`end` in `Gen/C07.lean`): renaming a local variable leaves them unchanged, any added, removed or altered
-statement — also in a branch the correspondence run never executes — changes them -/
+/-! The whole bodies of the functions the statement runs through, as digests of their normalised dumps, ONE theorem per
+function (a changed function breaks the theorem that carries its name; the Python-side anchor `body:<function>` names
+the first differing normalised line, documented text and today's text). The dumps are printed below `end` in
+`Gen/C07.lean`: statement kinds + expressions; local variables numbered in order of first binding, never-read names
+written `_`, comprehension variables scoped; type annotations, docstrings and the text of exception / log messages
+left out; runs of independent consecutive assignments in canonical order. Renaming a local variable, adding a type
+hint, rewording a message or swapping two independent assignments leaves a digest unchanged; any added, removed or
+altered statement — also in a branch the correspondence run never executes — changes it. -/
+
+theorem body_clean_by_distance_documented : cleanByDistanceBody = ("53d5ed6a27a1f97f", 32) := by decide
+theorem body_get_motl_subset_documented : getMotlSubsetBody = ("1c0cb3fa2e860f0e", 12) := by decide
+theorem body_get_coordinates_documented : getCoordinatesBody = ("1c17071c5bf60581", 6) := by decide
+theorem body_point_pairwise_dist_documented : pointPairwiseDistBody = ("36011e2af37cb2b5", 8) := by decide
+theorem body_scores_extract_particles_documented : scoresExtractParticlesBody = ("9e1eb5ce3d162174", 92) := by decide
+theorem body_rot_angles_load_documented : rotAnglesLoadBody = ("1499f2ae2f25072c", 20) := by decide
+/-- helpers every call runs through: `cryomap.read` (both maps), `Motl.__init__` / `check_df_correct_format` (the list
+handed in), `Motl.fill` / `create_empty_motl_df` (the list handed out), `Motl.get_feature` (the group values) -/
+theorem body_cryomap_read_documented : cryomapReadBody = ("f770242e19993a25", 23) := by decide
+theorem body_motl_init_documented : motlInitBody = ("13cf635e919b2a4f", 8) := by decide
+theorem body_check_df_correct_format_documented : checkDfCorrectFormatBody = ("07fa46686aea7fc9", 5) := by decide
+theorem body_motl_fill_documented : motlFillBody = ("fdc56b41a00636ea", 14) := by decide
+theorem body_get_feature_documented : getFeatureBody = ("44711fb3d9711d64", 7) := by decide
+theorem body_create_empty_motl_df_documented : createEmptyMotlDfBody = ("37eec394ec18a7c9", 4) := by decide
+
+/-- the six bodies anchored since the first hardening round, as one conjunction (kept under its earlier name) -/
 theorem bodies_documented :
-    cleanByDistanceBody = ("321e5d7128fc83e9", 32) ∧ getMotlSubsetBody = ("54b0bc8ed0c0fcf1", 12) ∧
-    getCoordinatesBody = ("1c17071c5bf60581", 6) ∧ pointPairwiseDistBody = ("cd1e857698aa5590", 8) ∧
-    scoresExtractParticlesBody = ("a47dc5325b309818", 92) ∧ rotAnglesLoadBody = ("5dff8b11edc3d162", 20) := by decide
+    cleanByDistanceBody = ("53d5ed6a27a1f97f", 32) ∧ getMotlSubsetBody = ("1c0cb3fa2e860f0e", 12) ∧
+    getCoordinatesBody = ("1c17071c5bf60581", 6) ∧ pointPairwiseDistBody = ("36011e2af37cb2b5", 8) ∧
+    scoresExtractParticlesBody = ("9e1eb5ce3d162174", 92) ∧ rotAnglesLoadBody = ("1499f2ae2f25072c", 20) :=
+  ⟨body_clean_by_distance_documented, body_get_motl_subset_documented, body_get_coordinates_documented,
+    body_point_pairwise_dist_documented, body_scores_extract_particles_documented, body_rot_angles_load_documented⟩
+
+/-- `cryomap.read`: an ndarray is copied as it is (`np.array(input_map)`, no dtype, the cast only under
+`data_type is not None`, which `scores_extract_particles` never passes); a file is read by mrcfile / emfile and
+transposed `(2, 1, 0)` (file axes section, row, column → array axes x, y, z) under the default `transpose=True` -/
+theorem read_documented :
+    readArrayBranchNoCast = true ∧ readFileTranspose = [2, 1, 0] ∧
+      readDefaults = [("transpose", "True"), ("data_type", "None")] := by decide
 
 /-- positions are `[x, y, z] + [shift_x, shift_y, shift_z]`; the distance is the Euclidean norm of the difference -/
 theorem position_documented :
@@ -173,6 +203,115 @@ theorem checkCleanR_sound (rel : Item α → Item α → Bool) (out : List (Item
     · refine ⟨k, hk, hg, hc, ?_⟩
       cases kg <;> simpa [betterEq, BetterEq] using hs
 
+/-- the full checker is the order-free checker plus the in-order test -/
+theorem checkCleanR_eq_core_and_order (rel : Item α → Item α → Bool) (out : List (Item α)) :
+    checkCleanR rel kg items out = (checkCleanCoreR rel kg items out && groupsInOrder items out) := by
+  unfold checkCleanR checkCleanCoreR
+  ac_rfl
+
+/-- the order-free checker (the one whose rejection is reported as a violation of the statement), for any
+closeness relation `rel`: exactly the clauses the statement names, stated over `rel` -/
+theorem checkCleanCoreR_iff (rel : Item α → Item α → Bool) (out : List (Item α)) :
+    checkCleanCoreR rel kg items out = true ↔
+      ((∀ a ∈ out, a ∈ items) ∧ (out.map (·.idx)).Nodup ∧
+        (∀ a ∈ out, ∀ b ∈ out, a.idx ≠ b.idx → a.grp = b.grp → rel a b = false) ∧
+        (∀ r ∈ items, r ∉ out → ∃ k ∈ out, k.grp = r.grp ∧ rel k r = true ∧ BetterEq kg k.score r.score)) := by
+  unfold checkCleanCoreR
+  simp only [Bool.and_eq_true, List.all_eq_true, List.contains_iff_mem, Bool.or_eq_true, beq_iff_eq,
+    Bool.not_eq_eq_eq_not, Bool.not_true, decide_eq_false_iff_not, List.any_eq_true, decide_eq_true_eq]
+  constructor
+  · rintro ⟨⟨⟨h1, hn⟩, h2⟩, h3⟩
+    refine ⟨h1, nodupB_nodup _ hn, ?_, ?_⟩
+    · intro a ha b hb hne hg
+      rcases h2 a ha b hb with (h | h) | h
+      · exact absurd h hne
+      · exact absurd hg h
+      · exact h
+    · intro r hr hout
+      rcases h3 r hr with h | ⟨k, hk, ⟨hg, hc⟩, hs⟩
+      · exact absurd h hout
+      · refine ⟨k, hk, hg, hc, ?_⟩
+        cases kg <;> simpa [betterEq, BetterEq] using hs
+  · rintro ⟨h1, hn, h2, h3⟩
+    refine ⟨⟨⟨h1, nodup_nodupB _ hn⟩, ?_⟩, ?_⟩
+    · intro a ha b hb
+      by_cases hi : a.idx = b.idx
+      · exact Or.inl (Or.inl hi)
+      · by_cases hg : a.grp = b.grp
+        · exact Or.inr (h2 a ha b hb hi hg)
+        · exact Or.inl (Or.inr hg)
+    · intro r hr
+      by_cases hout : r ∈ out
+      · exact Or.inl hout
+      · obtain ⟨k, hk, hg, hc, hs⟩ := h3 r hr hout
+        refine Or.inr ⟨k, hk, ⟨hg, hc⟩, ?_⟩
+        cases kg <;> simpa [betterEq, BetterEq] using hs
+
+/-- **sound and complete against the clause Props**: the order-free checker accepts a claimed result exactly when
+the remaining rows are input rows, none twice, `Separated` and `Dominated` — it can neither miss a violated
+clause nor reject a result that meets the clauses -/
+theorem checkCleanCore_iff (out : List (Item α)) :
+    checkCleanCoreR (closer d) kg items out = true ↔
+      ((∀ a ∈ out, a ∈ items) ∧ (out.map (·.idx)).Nodup ∧ Separated d out ∧ Dominated d kg items out) := by
+  rw [checkCleanCoreR_iff]
+  simp only [closer, decide_eq_false_iff_not, decide_eq_true_eq, Separated, Dominated]
+
+/-- the same for the reading `dist ≤ d` of an exact-distance tie -/
+theorem checkCleanCoreLe_iff (out : List (Item α)) :
+    checkCleanCoreR (closerLe d) kg items out = true ↔
+      ((∀ a ∈ out, a ∈ items) ∧ (out.map (·.idx)).Nodup ∧
+        (∀ a ∈ out, ∀ b ∈ out, a.idx ≠ b.idx → a.grp = b.grp → ¬ dist2 a.pos b.pos ≤ d * d) ∧
+        (∀ r ∈ items, r ∉ out → ∃ k ∈ out, k.grp = r.grp ∧ dist2 k.pos r.pos ≤ d * d ∧ BetterEq kg k.score r.score)) := by
+  rw [checkCleanCoreR_iff]
+  simp only [closerLe, decide_eq_false_iff_not, decide_eq_true_eq]
+
+/-- the in-order test is exactly `Remaining` -/
+theorem groupsInOrder_iff (out : List (Item α)) : groupsInOrder items out = true ↔ Remaining items out :=
+  ⟨fun h k => groupsInOrder_sublist items out h k, fun h => groupsInOrder_of_sublist items out h⟩
+
+/-- **the full checker accepts exactly the results that meet every clause and keep the row order** -/
+theorem checkClean_iff (out : List (Item α)) :
+    checkClean d kg items out = true ↔
+      ((∀ a ∈ out, a ∈ items) ∧ (out.map (·.idx)).Nodup ∧ Separated d out ∧ Dominated d kg items out ∧
+        Remaining items out) := by
+  unfold checkClean
+  rw [checkCleanR_eq_core_and_order, Bool.and_eq_true, checkCleanCore_iff, groupsInOrder_iff]
+  constructor
+  · rintro ⟨⟨h1, h2, h3, h4⟩, h5⟩; exact ⟨h1, h2, h3, h4, h5⟩
+  · rintro ⟨h1, h2, h3, h4, h5⟩; exact ⟨⟨h1, h2, h3, h4⟩, h5⟩
+
+/-- the model's own output has no row twice -/
+theorem clean_nodup (hN : (items.map (·.idx)).Nodup) : ((cleanItems d kg items).map (·.idx)).Nodup := by
+  have hI : items.Nodup := nodup_of_map_nodup _ _ hN
+  have hsub : ∀ a ∈ cleanItems d kg items, a ∈ items := by
+    intro a ha
+    rw [mem_cleanItems] at ha
+    exact (List.mem_filter.1 ((cleanGroup_sublist d kg _).subset ha)).1
+  apply nodup_map_on _ _ (nodup_of_groups_sublist items _ hI (fun k => clean_remaining d kg items k))
+  intro x hx y hy e
+  exact eq_of_nodup_map (·.idx) items hN x y (hsub x hx) (hsub y hy) e
+
+/-- **the checker cannot raise a false alarm on a correct cleaning**: the model's own output passes the full
+checker (hence the order-free one), for every list with distinct row numbers -/
+theorem checkClean_accepts_model (hN : (items.map (·.idx)).Nodup) :
+    checkClean d kg items (cleanItems d kg items) = true := by
+  rw [checkClean_iff]
+  refine ⟨?_, clean_nodup d kg items hN, clean_separated d kg items hN, clean_dominated d kg items hN,
+    clean_remaining d kg items⟩
+  intro a ha
+  rw [mem_cleanItems] at ha
+  exact (List.mem_filter.1 ((cleanGroup_sublist d kg _).subset ha)).1
+
+/-- … in particular for every particle list, grouping field, radius and score direction (no hypothesis) -/
+theorem checkClean_accepts_cleanByDistance (feature : Field) (l : List (Particle α)) :
+    checkClean d kg (itemsOf feature l) (cleanByDistance d kg feature l) = true ∧
+      checkCleanCoreR (closer d) kg (itemsOf feature l) (cleanByDistance d kg feature l) = true := by
+  have h := checkClean_accepts_model d kg (itemsOf feature l) (itemsOf_nodup feature l)
+  refine ⟨h, ?_⟩
+  unfold checkClean at h
+  rw [checkCleanR_eq_core_and_order, Bool.and_eq_true] at h
+  exact h.1
+
 /-- **the checker run on the implementation's output is sound for every cleaning clause of the statement**:
 remaining rows are input rows, none twice, in input order within each group (`Remaining`), separated, and
 every removed row is dominated -/
@@ -211,30 +350,44 @@ theorem checkCleanLe_sound (out : List (Item α)) (h : checkCleanLe d kg items o
     obtain ⟨k, hk, hg, hc, hs⟩ := h3 r hr' hout
     exact ⟨k, hk, hg, by simpa [closerLe] using hc, hs⟩
 
-/-- without a pair at distance exactly `d` inside a group the two readings are the same checker -/
+/-- without a pair of DIFFERENT rows of ONE group at distance exactly `d` the two readings are the same checker
+(pairs of different groups, and a row with itself, may be at any distance — in particular `d = 0` is not excluded;
+this is the hypothesis the generator guarantees: `_has_tie` looks inside each group only) -/
 theorem checkClean_eq_checkCleanLe_of_no_tie (out : List (Item α))
-    (hno : ∀ a ∈ items, ∀ b ∈ items, dist2 a.pos b.pos ≠ d * d) (hsub : ∀ a ∈ out, a ∈ items) :
+    (hno : ∀ a ∈ items, ∀ b ∈ items, a ≠ b → a.grp = b.grp → dist2 a.pos b.pos ≠ d * d)
+    (hsub : ∀ a ∈ out, a ∈ items) :
     checkClean d kg items out = checkCleanLe d kg items out := by
-  have hrel : ∀ a ∈ items, ∀ b ∈ items, closer d a b = closerLe d a b := by
-    intro a ha b hb
+  have hrel : ∀ a ∈ items, ∀ b ∈ items, a ≠ b → a.grp = b.grp → closer d a b = closerLe d a b := by
+    intro a ha b hb hne hg
     unfold closer closerLe
     rcases lt_trichotomy (dist2 a.pos b.pos) (d * d) with h | h | h
     · simp [h, le_of_lt h]
-    · exact absurd h (hno a ha b hb)
+    · exact absurd h (hno a ha b hb hne hg)
     · simp [not_lt_of_gt h, not_le_of_gt h]
   have hS : (out.all fun a => out.all fun b => a.idx == b.idx || !decide (a.grp = b.grp) || !closer d a b) =
       (out.all fun a => out.all fun b => a.idx == b.idx || !decide (a.grp = b.grp) || !closerLe d a b) := by
     apply all_congr_mem; intro a ha
     apply all_congr_mem; intro b hb
-    rw [hrel a (hsub a ha) b (hsub b hb)]
+    by_cases hi : a.idx = b.idx
+    · simp [hi]
+    · by_cases hg : a.grp = b.grp
+      · have hne : a ≠ b := fun e => hi (by rw [e])
+        rw [hrel a (hsub a ha) b (hsub b hb) hne hg]
+      · simp [hg]
   have hD : (items.all fun r => out.contains r ||
         out.any fun k => decide (k.grp = r.grp) && closer d k r && betterEq kg k.score r.score) =
       (items.all fun r => out.contains r ||
         out.any fun k => decide (k.grp = r.grp) && closerLe d k r && betterEq kg k.score r.score) := by
     apply all_congr_mem; intro r hr
-    congr 1
-    apply any_congr_mem; intro k hk
-    rw [hrel k (hsub k hk) r hr]
+    by_cases hro : r ∈ out
+    · have : out.contains r = true := by simpa using hro
+      rw [this]; simp
+    · congr 1
+      apply any_congr_mem; intro k hk
+      by_cases hg : k.grp = r.grp
+      · have hne : k ≠ r := fun e => hro (e ▸ hk)
+        rw [hrel k (hsub k hk) r hr hne hg]
+      · simp [hg]
   simp only [checkClean, checkCleanLe, checkCleanR, hS, hD]
 
 /-! #### groups never affect each other, as a statement about *any* claimed result -/
@@ -314,6 +467,99 @@ theorem checkIndependent_sound (out : List (Item α)) (h : checkIndependent (clo
     by_cases hk : k ∈ items.map (·.grp)
     · exact (checkClean_sound d kg (restrict k items) (restrict k out) (key k hk)).2.2.2.1
     · rw [hempty k hk]; intro k'; simp [restrict]
+
+/-- the clauses for the rows of group `k` alone, for any closeness relation (order-free) -/
+def GroupSpecR (rel : Item α → Item α → Bool) (k : α) (out : List (Item α)) : Prop :=
+  (∀ a ∈ restrict k out, a ∈ restrict k items) ∧ ((restrict k out).map (·.idx)).Nodup ∧
+    (∀ a ∈ restrict k out, ∀ b ∈ restrict k out, a.idx ≠ b.idx → a.grp = b.grp → rel a b = false) ∧
+    (∀ r ∈ restrict k items, r ∉ restrict k out →
+      ∃ c ∈ restrict k out, c.grp = r.grp ∧ rel c r = true ∧ BetterEq kg c.score r.score)
+
+/-- **the per-group verdicts of the order-free checker are sound for every closeness relation** (`<` and `≤`):
+if every group passes on its own sub-list, every group meets the clauses on its own -/
+theorem checkIndependentCore_sound (rel : Item α → Item α → Bool) (out : List (Item α))
+    (h : checkIndependentCore rel kg items out = true) : ∀ k, GroupSpecR kg items rel k out := by
+  unfold checkIndependentCore checkGroupsCore at h
+  simp only [Bool.and_eq_true, List.all_eq_true, List.contains_iff_mem, List.mem_map, forall_exists_index, and_imp,
+    forall_apply_eq_imp_iff₂] at h
+  obtain ⟨hm, hg⟩ := h
+  intro k
+  by_cases hk : k ∈ items.map (·.grp)
+  · exact (checkCleanCoreR_iff kg (restrict k items) rel (restrict k out)).1 (hg k ((mem_groupKeys _ k).2 hk))
+  · have h1 : restrict k out = [] := by
+      unfold restrict
+      rw [List.filter_eq_nil_iff]
+      intro it hit
+      simp only [decide_eq_true_eq]
+      intro e; exact hk (List.mem_map.2 ⟨it, hm it hit, e⟩)
+    have h2 : restrict k items = [] := by
+      unfold restrict
+      rw [List.filter_eq_nil_iff]
+      intro it hit
+      simp only [decide_eq_true_eq]
+      intro e; exact hk (List.mem_map.2 ⟨it, hit, e⟩)
+    unfold GroupSpecR
+    rw [h1, h2]
+    refine ⟨?_, by simp, ?_, ?_⟩
+    · intro a ha; cases ha
+    · intro a ha; cases ha
+    · intro r hr; cases hr
+
+/-- the per-group verdict with the in-order test implies the order-free one -/
+theorem checkIndependent_core (rel : Item α → Item α → Bool) (out : List (Item α))
+    (h : checkIndependent rel kg items out = true) : checkIndependentCore rel kg items out = true := by
+  unfold checkIndependent checkGroups at h
+  unfold checkIndependentCore checkGroupsCore
+  simp only [Bool.and_eq_true, List.all_eq_true, List.mem_map, forall_exists_index, and_imp,
+    forall_apply_eq_imp_iff₂] at h ⊢
+  refine ⟨h.1, ?_⟩
+  intro k hk
+  have := h.2 k hk
+  rw [checkCleanR_eq_core_and_order, Bool.and_eq_true] at this
+  exact this.1
+
+/-- **`independent_core_le` of the driver is sound** (the verdict the judge uses for lists holding an
+exact-distance tie): if every group passes the `≤`-reading on its own sub-list, then in every group, on its own,
+no two remaining rows are within `d` (closed) and every removed row is within `d` (closed) of a remaining row of
+the group with an equal or better score -/
+theorem checkIndependentCoreLe_sound (out : List (Item α)) (h : checkIndependentCore (closerLe d) kg items out = true) :
+    ∀ k, (∀ a ∈ restrict k out, a ∈ restrict k items) ∧
+      (∀ a ∈ restrict k out, ∀ b ∈ restrict k out, a.idx ≠ b.idx → a.grp = b.grp → ¬ dist2 a.pos b.pos ≤ d * d) ∧
+      (∀ r ∈ restrict k items, r ∉ restrict k out →
+        ∃ c ∈ restrict k out, c.grp = r.grp ∧ dist2 c.pos r.pos ≤ d * d ∧ BetterEq kg c.score r.score) := by
+  intro k
+  obtain ⟨h1, _, h2, h3⟩ := checkIndependentCore_sound kg items (closerLe d) out h k
+  refine ⟨h1, ?_, ?_⟩
+  · intro a ha b hb hne hg
+    simpa [closerLe] using h2 a ha b hb hne hg
+  · intro r hr hout
+    obtain ⟨c, hc, hg, hcl, hs⟩ := h3 r hr hout
+    exact ⟨c, hc, hg, by simpa [closerLe] using hcl, hs⟩
+
+/-- the same from the per-group verdict that also tests the row order (`checkIndependent (closerLe d)`, the
+`independent_le` answer of the driver before round 5) -/
+theorem checkIndependentLe_sound (out : List (Item α)) (h : checkIndependent (closerLe d) kg items out = true) :
+    ∀ k, (∀ a ∈ restrict k out, a ∈ restrict k items) ∧
+      (∀ a ∈ restrict k out, ∀ b ∈ restrict k out, a.idx ≠ b.idx → a.grp = b.grp → ¬ dist2 a.pos b.pos ≤ d * d) ∧
+      (∀ r ∈ restrict k items, r ∉ restrict k out →
+        ∃ c ∈ restrict k out, c.grp = r.grp ∧ dist2 c.pos r.pos ≤ d * d ∧ BetterEq kg c.score r.score) :=
+  checkIndependentCoreLe_sound d kg items out (checkIndependent_core kg items _ out h)
+
+/-- the order-free per-group verdict under the statement's reading gives `GroupSpec` for every group, hence (by
+`spec_iff_groups`) the clauses for the whole list: this is the `independent_core` answer of the driver -/
+theorem checkIndependentCore_spec (out : List (Item α)) (h : checkIndependentCore (closer d) kg items out = true) :
+    (∀ k, GroupSpec d kg items k out) ∧
+      ((∀ a ∈ out, a ∈ items) ∧ Separated d out ∧ Dominated d kg items out) := by
+  have hk : ∀ k, GroupSpec d kg items k out := by
+    intro k
+    obtain ⟨h1, _, h2, h3⟩ := checkIndependentCore_sound kg items (closer d) out h k
+    refine ⟨h1, ?_, ?_⟩
+    · intro a ha b hb hne hg
+      simpa [closer] using h2 a ha b hb hne hg
+    · intro r hr hout
+      obtain ⟨c, hc, hg, hcl, hs⟩ := h3 r hr hout
+      exact ⟨c, hc, hg, by simpa [closer] using hcl, hs⟩
+  exact ⟨hk, (spec_iff_groups d kg items out).2 hk⟩
 
 /-- a single-group list is cleaned by one greedy pass -/
 theorem clean_single_group (k : α) (hne : items ≠ []) (h : ∀ it ∈ items, it.grp = k) :
@@ -440,25 +686,74 @@ theorem extractPeaks_covers_map (ny nz : Nat) (scores : List α) (angles : List 
   obtain ⟨p, hp, hd, hs⟩ := peaks_cover thr dn dd _ al nb ord out h _ hv ht
   exact ⟨p, hp, hs, hd⟩
 
-/-- the checker run on the implementation's peak table is sound -/
+/-- any two entries of the peak table (in list order) are farther apart than the diameter — the conclusion of
+`peaks_separated`; a table holding two rows at one position does not satisfy it -/
+def PeaksPairwiseFar (dn dd : Nat) (out : List (Peak α)) : Prop :=
+  out.Pairwise (fun p q => (dn : Int) * dn < vd2 p.x p.y p.z q.x q.y q.z * ((dd : Int) * dd))
+
+theorem PeaksPairwiseFar.far (out : List (Peak α)) (h : PeaksPairwiseFar dn dd out) : PeaksFar dn dd out := by
+  intro p hp q hq hne
+  have hpq : p ≠ q := by
+    intro e; apply hne; rw [e]; exact ⟨rfl, rfl, rfl⟩
+  have hsym : ∀ a b : Peak α, (dn : Int) * dn < vd2 a.x a.y a.z b.x b.y b.z * ((dd : Int) * dd) →
+      (dn : Int) * dn < vd2 b.x b.y b.z a.x a.y a.z * ((dd : Int) * dd) := by
+    intro a b hab; rw [vd2_comm]; exact hab
+  exact pairwise_forall_ne _ hsym out h p q hp hq hpq
+
+/-- **the checker run on the implementation's peak table is sound and complete against the clause Props**: it
+accepts a table exactly when every row carries its voxel's data, any two ROWS (also two rows at one position)
+are farther apart than the diameter, and every supra-threshold voxel is covered -/
+theorem checkPeaks_iff (out : List (Peak α)) :
+    checkPeaks thr dn dd vs al nb ord out = true ↔
+      ((∀ p ∈ out, PeakCarries thr vs al nb ord p) ∧ PeaksPairwiseFar dn dd out ∧ PeaksCover thr dn dd vs out) := by
+  unfold checkPeaks carryOk coverOk
+  simp only [Bool.and_eq_true, farPairs_iff, List.all_eq_true, List.any_eq_true, Bool.or_eq_true, decide_eq_true_eq,
+    Bool.not_eq_eq_eq_not, Bool.not_true, decide_eq_false_iff_not]
+  constructor
+  · rintro ⟨⟨h1, h2⟩, h3⟩
+    refine ⟨?_, h2, ?_⟩
+    · intro p hp
+      obtain ⟨v, hv, ⟨⟨ht, hx, hy, hz, hs⟩, h0⟩, hrow⟩ := h1 p hp
+      exact ⟨v, hv, ht, hx, hy, hz, hs, h0, hrow⟩
+    · intro v hv ht
+      rcases h3 v hv with h | h
+      · exact absurd ht h
+      · exact h
+  · rintro ⟨h1, h2, h3⟩
+    refine ⟨⟨?_, h2⟩, ?_⟩
+    · intro p hp
+      obtain ⟨v, hv, ht, hx, hy, hz, hs, h0, hrow⟩ := h1 p hp
+      exact ⟨v, hv, ⟨⟨ht, hx, hy, hz, hs⟩, h0⟩, hrow⟩
+    · intro v hv
+      by_cases ht : thr < v.score
+      · exact Or.inr (h3 v hv ht)
+      · exact Or.inl ht
+
+/-- soundness in the earlier form (`PeaksFar` follows from the pairwise form) -/
 theorem checkPeaks_sound (out : List (Peak α)) (h : checkPeaks thr dn dd vs al nb ord out = true) :
-    (∀ p ∈ out, PeakCarries thr vs al nb ord p) ∧ PeaksFar dn dd out ∧ PeaksCover thr dn dd vs out := by
-  unfold checkPeaks carryOk farOk coverOk at h
-  simp only [Bool.and_eq_true, List.all_eq_true, List.any_eq_true, Bool.or_eq_true, decide_eq_true_eq,
-    Bool.not_eq_eq_eq_not, Bool.not_true, decide_eq_false_iff_not] at h
-  obtain ⟨⟨h1, h2⟩, h3⟩ := h
-  refine ⟨?_, ?_, ?_⟩
-  · intro p hp
-    obtain ⟨v, hv, ⟨⟨ht, hx, hy, hz, hs⟩, h0⟩, hrow⟩ := h1 p hp
-    exact ⟨v, hv, ht, hx, hy, hz, hs, h0, hrow⟩
-  · intro p hp q hq hne
-    rcases h2 p hp q hq with h | h
-    · exact absurd h hne
-    · exact h
-  · intro v hv ht
-    rcases h3 v hv with h | h
-    · exact absurd ht h
-    · exact h
+    (∀ p ∈ out, PeakCarries thr vs al nb ord p) ∧ PeaksFar dn dd out ∧ PeaksCover thr dn dd vs out ∧
+      PeaksPairwiseFar dn dd out := by
+  obtain ⟨h1, h2, h3⟩ := (checkPeaks_iff thr dn dd vs al nb ord out).1 h
+  exact ⟨h1, PeaksPairwiseFar.far dn dd out h2, h3, h2⟩
+
+/-- a table holding the same row twice is rejected, whatever the diameter -/
+theorem checkPeaks_rejects_duplicate (p : Peak α) (out : List (Peak α)) (hp : p ∈ out) :
+    checkPeaks thr dn dd vs al nb ord (p :: out) = false := by
+  by_contra hc
+  have h := ((checkPeaks_iff thr dn dd vs al nb ord (p :: out)).1 (by simpa using hc)).2.1
+  unfold PeaksPairwiseFar at h
+  rw [List.pairwise_cons] at h
+  have := h.1 p hp
+  rw [vd2_self] at this
+  have h0 : (0 : Int) ≤ (dn : Int) * dn := Int.mul_nonneg (Int.natCast_nonneg _) (Int.natCast_nonneg _)
+  omega
+
+/-- **the checker cannot raise a false alarm on a correct extraction**: the model's own peak table passes -/
+theorem checkPeaks_accepts_model (out : List (Peak α)) (h : extractFrom thr dn dd vs al nb ord = .peaks out) :
+    checkPeaks thr dn dd vs al nb ord out = true :=
+  (checkPeaks_iff thr dn dd vs al nb ord out).2
+    ⟨peaks_carry thr dn dd vs al nb ord out h, peaks_separated thr dn dd vs al nb ord out h,
+      peaks_cover thr dn dd vs al nb ord out h⟩
 
 end Peaks
 
@@ -487,6 +782,16 @@ example : checkCleanLe (2 : Int) true [⟨0, 1, 5, ⟨0, 0, 0⟩⟩, ⟨1, 1, 9,
 example : checkClean (2 : Int) true [⟨0, 1, 5, ⟨0, 0, 0⟩⟩, ⟨1, 1, 9, ⟨2, 0, 0⟩⟩] [⟨0, 1, 5, ⟨0, 0, 0⟩⟩] = false ∧
     checkCleanLe (2 : Int) true [⟨0, 1, 5, ⟨0, 0, 0⟩⟩, ⟨1, 1, 9, ⟨2, 0, 0⟩⟩] [⟨0, 1, 5, ⟨0, 0, 0⟩⟩] = false := by decide
 
+/-- the hypothesis of `checkClean_eq_checkCleanLe_of_no_tie` is met by a list that holds a pair of DIFFERENT groups at
+distance exactly d = 2 (rows 0 and 2) and no such pair inside a group -/
+example : ∀ a ∈ ([⟨0, 1, 5, ⟨0, 0, 0⟩⟩, ⟨1, 1, 9, ⟨1, 0, 0⟩⟩, ⟨2, 2, 7, ⟨2, 0, 0⟩⟩] : List (Item Int)),
+    ∀ b ∈ ([⟨0, 1, 5, ⟨0, 0, 0⟩⟩, ⟨1, 1, 9, ⟨1, 0, 0⟩⟩, ⟨2, 2, 7, ⟨2, 0, 0⟩⟩] : List (Item Int)),
+    a ≠ b → a.grp = b.grp → dist2 a.pos b.pos ≠ 2 * 2 := by decide
+
+/-- survivors in another order: the order-free checker (spec verdict) accepts, the full checker does not (corr) -/
+example : checkCleanCoreR (closer (2 : Int)) true [⟨0, 1, 5, ⟨0, 0, 0⟩⟩, ⟨1, 1, 9, ⟨9, 0, 0⟩⟩]
+    [⟨1, 1, 9, ⟨9, 0, 0⟩⟩, ⟨0, 1, 5, ⟨0, 0, 0⟩⟩] = true := by decide
+
 /-- per-group verdicts (the checker applied to a group's own sub-list): group 2 lost its best particle -/
 example : checkClean (2 : Int) true
     (restrict 2 [⟨0, 1, 5, ⟨0, 0, 0⟩⟩, ⟨1, 2, 9, ⟨1, 0, 0⟩⟩, ⟨2, 2, 3, ⟨5, 0, 0⟩⟩])
@@ -501,6 +806,10 @@ example : ([(9, 0), (7, 1), (7, 2), (5, 3)] : List (Int × Nat)).Pairwise (fun a
 /-- a 1×1×3 map, threshold 0, diameter 1: the two end voxels are extracted, the middle one is covered -/
 example : checkPeaks (0 : Int) 1 1 [⟨0, 0, 0, 5, 1⟩, ⟨0, 0, 1, 3, 0⟩, ⟨0, 0, 2, 4, 1⟩] [(10, 20, 30), (40, 50, 60)] 0 .zzx
     [⟨1, 1, 1, 5, 40, 60, 50⟩, ⟨1, 1, 3, 4, 40, 60, 50⟩] = true := by decide
+
+/-- two identical rows (the driver test of audit 2) are rejected -/
+example : checkPeaks (0 : Int) 1 1 [⟨0, 0, 0, 5, 1⟩, ⟨0, 0, 1, 3, 0⟩, ⟨0, 0, 2, 4, 1⟩] [(10, 20, 30), (40, 50, 60)] 0 .zzx
+    [⟨1, 1, 1, 5, 40, 60, 50⟩, ⟨1, 1, 1, 5, 40, 60, 50⟩, ⟨1, 1, 3, 4, 40, 60, 50⟩] = false := by decide
 
 /-- the hypothesis `extractFrom … = .peaks out` of the peak theorems is met by the same map (voxels listed best
 first, so that the sort is the identity and the kernel can evaluate the rest) -/
